@@ -127,6 +127,10 @@ def corroborated_by_callers(prop, gdir, viol, results, unit_by_id):
     refutation stands.  Returns (remaining violations, NOTE lines)."""
     if not viol or any(not is_helper(gdir, o['function']) for o in viol):
         return viol, []
+    if any(o['function'].startswith(('ut_map__', 'ut_set__')) for o in viol):
+        # ut_map/ut_set have no capacity: MAXCAP bounds the STORED ENTRIES and the public insert needs room below it, so
+        # the public units explore fewer entries than the helper units do: no corroboration, the refutation stands
+        return viol, []
     _, reach = callgraph(gdir)
     notes = []
     for o in viol:
@@ -152,11 +156,11 @@ def corroborated_by_callers(prop, gdir, viol, results, unit_by_id):
                 for x in r['obligations']:
                     if x['kind'] in ('vacuity', 'unwind', 'spec-sanity'):
                         continue
+                    if x['status'] != 'SUCCESS':
+                        return viol, []   # ANY obligation of a public caller, whatever property it is tagged with
                     x = retag(prop, u, r, x)
                     if prop in x['tags']:
                         tagged += 1
-                        if x['status'] != 'SUCCESS':
-                            return viol, []
             if tagged == 0:
                 return viol, []
             if not rangeform:
